@@ -54,7 +54,7 @@ Definition obs_of (seen : option (nat * nat * val)) : obs :=
   match seen with Some (k, _, v) => Some (k, v) | None => None end.
 
 (* consume a read log along a program *)
-Fixpoint follows (p : prog) (log : list readrec) : option prog :=
+Fixpoint follows (p : prog) (log : list readrec) {struct log} : option prog :=
   match log with
   | [] => Some p
   | r :: log' =>
